@@ -326,6 +326,19 @@ static void run_body(uint64_t idx, Rng& r) {
       VF_CHECK(!o.is_compatible(*L.f), "bloom|is_compatible|true-for-incompatible", cfg(L) + " reversed which=" + std::to_string(which));
       VF_CHECK(throws([&] { o.union_with(*L.f); }), "bloom|incompatible|union_with-accepted", cfg(L) + " reversed which=" + std::to_string(which));
       what = "refused incompatible operand"; count("incompatible_refusals");
+    } else if (op < 985 && pool.size() >= 2) {
+      // assignment: the target takes over the complete state of the source (owned targets/sources only:
+      // two live views of one caller buffer are not kept)
+      size_t ai = r.below(pool.size()), bi = r.below(pool.size());
+      if (ai == bi || pool[ai].mem || pool[bi].mem) continue;
+      Live& A = pool[ai]; Live& B = pool[bi];
+      const bool src_dirty_hint = !B.inserted.empty();
+      if (r.coin()) { *A.f = *B.f; count("copy_assign"); if (src_dirty_hint) count("copy_assign_from_updated_source"); }
+      else { bloom_filter tmp(*B.f); *A.f = std::move(tmp); count("move_assign"); }
+      A.m = B.m; A.inserted = B.inserted; A.insert_valid = B.insert_valid;
+      observe(A, r, "assignment", domain, kind);
+      check_view(*B.f, B, r, "assignment-source", "assignment", domain, kind);
+      continue;
     } else if (pool.size() < 4) {
       // new filter from a view of an existing one: copy (owned) or deserialized
       Live N(L.m.cap, L.m.nh, L.m.seed);
